@@ -96,16 +96,9 @@ pub fn detail(xs: &[f64], ys: &[f64], obs: Value) -> Value {
     json!({"knots_x": fjs(xs), "knots_y": fjs(ys), "observation": obs})
 }
 
-/// run the real constrained_spline and compute the exact reference data
-pub fn analyse(xs: &[f64], ys: &[f64]) -> Result<Analysis, Fail> {
-    let n = xs.len();
-    let knots: Vec<Knot> = xs.iter().zip(ys).map(|(&x, &y)| Knot { x, y }).collect();
-    let pw = guard(|| constrained_spline(&knots)).map_err(|p| Fail::new(format!("constrained_spline panicked on strictly increasing finite knots: {p}"), detail(xs, ys, json!(p))))?;
-    if pw.segments.len() != n - 1 {
-        return Err(Fail::new("constrained_spline does not return one cubic per knot interval", detail(xs, ys, json!({"segments": pw.segments.len()}))));
-    }
-    let qx: Vec<Q> = xs.iter().map(|&x| q(x)).collect();
-    let qy: Vec<Q> = ys.iter().map(|&y| q(y)).collect();
+/// exact (rational) Kruger secant slopes and knot slopes — the reference model, independent of the subject
+pub fn exact_kruger(qx: &[Q], qy: &[Q]) -> (Vec<Q>, Vec<Q>) {
+    let n = qx.len();
     let secants: Vec<Q> = (0..n - 1).map(|i| qy[i + 1].sub(&qy[i]).div(&qx[i + 1].sub(&qx[i]))).collect();
     let mut slopes = vec![Q::zero(); n];
     for i in 1..n - 1 {
@@ -114,6 +107,23 @@ pub fn analyse(xs: &[f64], ys: &[f64]) -> Result<Analysis, Fail> {
     }
     slopes[0] = secants[0].mul_i(3).div_i(2).sub(&slopes[1].div_i(2));
     slopes[n - 1] = secants[n - 2].mul_i(3).div_i(2).sub(&slopes[n - 2].div_i(2));
+    (secants, slopes)
+}
+
+/// run the real constrained_spline and compute the exact reference data
+pub fn analyse(xs: &[f64], ys: &[f64]) -> Result<Analysis, Fail> {
+    let n = xs.len();
+    let knots: Vec<Knot> = xs.iter().zip(ys).map(|(&x, &y)| Knot { x, y }).collect();
+    let pw = guard(|| constrained_spline(&knots)).map_err(|p| Fail::new(format!("constrained_spline panicked on strictly increasing finite knots: {p}"), detail(xs, ys, json!(p))))?;
+    if pw.segments.len() != n - 1 {
+        return Err(Fail::new("constrained_spline does not return one cubic per knot interval", detail(xs, ys, json!({"segments": pw.segments.len()}))));
+    }
+    if let Some(c) = pw.segments.iter().flat_map(|s| s.poly.0.iter()).find(|c| !c.is_finite()) {
+        return Err(Fail::new("constrained_spline returned a non-finite coefficient for finite, strictly increasing knots", detail(xs, ys, json!({"coefficient": fj(*c), "returned_cubics": pw.segments.iter().map(|s| fjs(&s.poly.0)).collect::<Vec<_>>()}))));
+    }
+    let qx: Vec<Q> = xs.iter().map(|&x| q(x)).collect();
+    let qy: Vec<Q> = ys.iter().map(|&y| q(y)).collect();
+    let (secants, slopes) = exact_kruger(&qx, &qy);
     let mut tau_val = vec![];
     let mut tau_der = vec![];
     let scale = q(2f64.powi(-43)); // 2^10 * 2^-53
